@@ -15,6 +15,10 @@ from fractions import Fraction as F
 sys.path.insert(0, os.path.dirname(os.path.abspath(__file__)))
 from common import *  # noqa
 
+sys.path.insert(0, os.path.join(VERIF, "tools"))
+import gen_punt_sites  # noqa
+import c17lib  # noqa
+
 PID = "C17"
 KF_ID = "two-sided-ageing"
 FP_SPEC = {"cloudsync/sync/state.py": ["SyncState.change", "SyncState.mark_changed", "SyncState.updated", "SyncState.finished",
@@ -24,7 +28,8 @@ FP_SPEC = {"cloudsync/sync/state.py": ["SyncState.change", "SyncState.mark_chang
                                        "SyncEntry.get_latest", "SyncState.unconditionally_get_latest",
                                        "SyncState.unconditionally_get_no_info"],
            "cloudsync/sync/manager.py": ["SyncManager.do", "SyncManager.__init__", "SyncManager.finished",
-                                         "SyncManager._sync_one_entry"],
+                                         "SyncManager._sync_one_entry", "SyncManager.sync", "SyncManager.pre_sync"],
+           "cloudsync/exceptions.py": ["CloudException", "CloudTemporaryError", "CloudOutOfSpaceError"],
            "cloudsync/runnable.py": ["Runnable.run", "Runnable.backoff", "Runnable.nothing_happened",
                                      "Runnable.__increment_backoff"],
            "cloudsync/cs.py": ["CloudSync.aging"]}
@@ -1158,16 +1163,66 @@ def shrink(env, hit):
 
 # ------------------------------------------------------------------ main
 
+_TABLE = {}
+
+
+def table_tie(res, proof_broken):
+    """Gen/PuntSites.lean was regenerated from the source tree before the audit (see __main__); Props/C17Sites.lean (generated
+    except-clause tables = audited tables; every Exception lands in a clause that punts) is listed in obligations/C17.json and was
+    built and audited with the rest.  Records what happened; the breakage itself is already in `proof_broken`."""
+    mine = [f for f in proof_broken if "C17Sites" in f or "SchedSites.gen_" in f or "PuntSites" in f]
+    info = dict(_TABLE, tie_checks=not mine)
+    if mine:
+        # the module over the generated table does not build, so the audit file as a whole did not load: audit the rest on its own
+        # (obligations/C17Core.json = C17.json without Props/C17Sites) to keep the count of discharged obligations honest
+        core = audit("C17Core")
+        res.coverage["discharged"] = core["discharged"]
+        proof_broken[:] = core["failures"] + ["Props/C17Sites.lean (generated except-clause table of SyncManager = audited table; every "
+                                              "Exception lands in a clause that punts) does not check: " + mine[0][-400:]]
+        src, _ = gen_punt_sites.generate()
+        info["generated"] = [l for l in src.split("\n") if l.startswith("def ") and not l.startswith("def sites")]
+        info["meaning"] = "an except clause of SyncManager changed: the generated table no longer equals the audited one, or a clause " \
+                          "that leaves the entry pending does not punt it"
+    res.coverage["except_clause_table"] = info
+
+
+def starve_violation(case, f, info):
+    return {"statement": f["statement"], "case": case, "monitor": f.get("monitor"), "iteration": f.get("iteration"),
+            "observation": f.get("observation"), "healthy_synced": info["healthy_synced"],
+            "trace": [(t["t"], t["attempted"], t["result"]) for t in info["trace"]],
+            "how": "harness/c17lib.py run_case(case): CloudSync over two MockProviders (harness/engine.py World, virtual clock); the "
+                   "provider call `kind` of the entry F raises `class` on every attempt (mode inject), or the remote provider is over quota "
+                   "/ the path is locked (modes quota, lock); healthy files H* are created before (older) and after (younger) it; every "
+                   "call of the real SyncManager.do is judged by the Lean monitor (driver layer sched, commands obs / wait); "
+                   "./check C17 --replay <this file> re-runs it"}
+
+
 def run(res, tier, seed, proof_broken, replay):
     rng = rng_for(seed, "c17")
     opens, fixed = load_known_findings(PID)
+    if replay:
+        import json
+        with open(replay) as f:
+            rp = json.load(f)
+        case = rp.get("failing", rp)
+        if "case" in case:
+            # a starvation scenario
+            lines, hnames, info = c17lib.run_case(case["case"])
+            f = c17lib.judge(case["case"], lines, hnames, info, run_driver("sched", lines))
+            bad = starve_violation(case["case"], f, info) if f and f["statement"] != "inconclusive" else None
+            print("REPLAY %s: %s" % (replay, "FAILS " + bad["statement"] if bad else "passes"))
+            res.coverage.update({"evaluations": len(lines), "programs": 1, "distinct_nontrivial": 1, "rule": "replay of one recorded scenario",
+                                 "samples": [case["case"]], "disagreements_checked": 0, "fingerprints": fingerprints(FP_SPEC)})
+            if bad:
+                res.violation({"property": PID, "kind": "statement fails on implementation (replay)", "failing": bad},
+                              name="%s_replay_%d.json" % (PID, seed))
+            return
+    table_tie(res, proof_broken)
+    static_broken = []
+    hit, broken, dis, ldis = None, [], [], []
     with Env() as env:
         if replay:
             # ./check C17 --replay <file>: re-run one recorded failing input on the real code, nothing else
-            import json
-            with open(replay) as f:
-                rp = json.load(f)
-            case = rp.get("failing", rp)
             bad = rerun(env, case["config"], case["ops"]) if "ops" in case and "config" in case else None
             print("REPLAY %s: %s" % (replay, "FAILS " + bad["statement"] if bad else "passes (or carries no input)"))
             res.coverage.update({"evaluations": 1, "programs": 1, "distinct_nontrivial": 1, "rule": "replay of one recorded input",
@@ -1220,7 +1275,7 @@ def run(res, tier, seed, proof_broken, replay):
                             "shuffle=True, removal of an id, DIRECTORY path changes and provider answers with a different hash are not modelled",
                             "loop tie: entries of one table are unrelated (finished() resets no priority), no new work arrives while the loop "
                             "runs, the sync work itself is scripted; all loop parameters dyadic so Runnable's float arithmetic is exact"]
-        broken = list(proof_broken)
+        broken = list(proof_broken) + static_broken
         if dis:
             broken.append("correspondence sched-layer: %s" % dis[0]["what"])
         if ldis:
@@ -1235,12 +1290,40 @@ def run(res, tier, seed, proof_broken, replay):
                     hit = loop_oracle(loop_case(env, lrng)[1][-1])
                     if hit:
                         break
-            if hit:
-                res.violation({"property": PID, "kind": "statement fails on implementation", "failing": hit, "broken": broken})
-            else:
-                res.violation({"property": PID, "kind": "proof obligation or correspondence no longer checks", "broken": broken,
-                               "first_disagreements": (dis + ldis)[:3]}, no_input=True)
+    # 3c. the starvation family on the real engine (every exception class x every provider call kind + quota + lock), judged by
+    #     the Lean monitor.  A rejected trace is a concrete violating history (like a refinement tie), reported on its own.
+    res.coverage.setdefault("known_finding_replay", {})["engine_level_echo_variant"] = c17lib.replay_echo_variant()
+    cases, classes, unknown = c17lib.family(rng_for(seed, "c17starve"), tier)
+    nlines, sfails, shist = c17lib.run_family(cases)
+    if broken and not sfails and not hit:
+        # search wider before giving up: more layouts of the same family
+        more, _c, _u = c17lib.family(rng_for(seed, "c17starve-search"), "thorough" if tier == "quick" else "thorough")
+        _n, sfails, _h = c17lib.run_family(more)
+    res.coverage["starvation_family"] = dict(shist, exception_classes=classes, classes_unknown_to_the_class_map=unknown,
+                                             call_kinds=list(c17lib.KINDS), provider_faults=["inject", "quota", "lock"],
+                                             sample=cases[0] if cases else None)
+    res.coverage["evaluations"] = res.coverage.get("evaluations", 0) + nlines
+    res.coverage["programs"] = res.coverage.get("programs", 0) + len(cases)
+    res.coverage["disagreements_checked"] = res.coverage.get("disagreements_checked", 0) + len(sfails)
+    if unknown:
+        res.notes.append("exception classes not in the class map of tools/gen_exc_table.py: %s" % unknown)
+    strong = [x for x in sfails if any(k in x[1]["statement"] for k in ("starvation", "did not defer", "dropped"))]
+    if strong or (sfails and not hit):
+        # prefer a scenario in which a healthy entry demonstrably starves
+        sfails = strong + [x for x in sfails if x not in strong]
+        sfails.sort(key=lambda x: (0 if "loop_no_starvation" in x[1]["statement"] else 1))
+        c0, f0, i0 = sfails[0]
+        res.violation({"property": PID, "kind": "statement fails on implementation", "failing": starve_violation(c0, f0, i0),
+                       "broken": broken, "other_failing_scenarios": [{"case": c, "statement": f["statement"][:160]} for c, f, _ in sfails[1:6]]})
+    elif hit:
+        res.violation({"property": PID, "kind": "statement fails on implementation", "failing": hit, "broken": broken})
+    elif broken:
+        res.violation({"property": PID, "kind": "proof obligation or correspondence no longer checks", "broken": broken,
+                       "first_disagreements": (dis + ldis)[:3]}, no_input=True)
 
 
 if __name__ == "__main__":
+    # before the build + audit of standard_main: the generated table must be the one of the tree under test
+    _changed, _unmapped = gen_punt_sites.write()
+    _TABLE.update({"regenerated": True, "changed_since_last_run": _changed, "unmapped": _unmapped})
     standard_main(PID, run)
